@@ -216,10 +216,23 @@ def decide(ex, got, want, timeout_ms, extra=()):
         if not D:
             v, dt, m, s = solve(cons, timeout_ms)
             return v, dt, None, len(cons), True, "normalised-identical"
-        v, dt, m, s = solve(cons, max(2000, timeout_ms // 2), want_model=True)
+        v, dt, m, s = solve(cons, max(2000, timeout_ms // 4), want_model=True)
         dt_total += dt
         if v != "unknown":
             return v, dt_total, m, len(cons), False, "normalised"
+        # rational functions: clear the denominators and expand (equivalent where they are non-zero)
+        try:
+            D2 = poly.clear_denominators(D)
+        except (poly.TooBig, RecursionError):
+            D2 = None
+        if D2 is not None and D2 is not D:
+            PL2 = poly.PolyLower()
+            goal2 = PL2.poly(D2) != 0
+            cons2 = pre + list(low.side) + PL.side + PL2.side + PL2.congruence() + [goal2]
+            v, dt, m, s = solve(cons2, max(2000, timeout_ms // 4), want_model=not D2)
+            dt_total += dt
+            if v == "unsat":
+                return v, dt_total, None, len(cons2), not D2, "normalised-cleared-denominators"
     zg, zw = low(got), low(want)
     goal = zg != zw
     cons = pre + list(low.side) + low.congruence() + [goal]
